@@ -276,6 +276,25 @@ func (p *Peer) opLoop() {
 				p.TxErr = err
 			}
 			p.mu.Unlock()
+		case "write-close":
+			// one more write and, once it has returned successfully, the close - with nothing in between
+			b := make([]byte, op.N)
+			prfFill(p.TxKey, p.Sent, b)
+			n, err := p.Conn.Write(b)
+			p.mu.Lock()
+			p.Sent += int64(n)
+			if err != nil && p.TxErr == nil {
+				p.TxErr = err
+			}
+			if err == nil {
+				p.Closed = true
+				p.ClosedAt = p.r.SimElapsed()
+				p.cond.Broadcast()
+			}
+			p.mu.Unlock()
+			if err == nil {
+				p.Conn.Close()
+			}
 		case "wait":
 			// think time: the peer does nothing for N simulated seconds (timers and keep-alives run meanwhile)
 			time.Sleep(time.Duration(op.N) * time.Second)
